@@ -36,7 +36,7 @@ UNSTABLE = ("sort_unstable", "sort_unstable_by", "sort_unstable_by_key", "select
 
 
 def kb_methods(P):
-    return [f for f in P.fns.values() if f.impl_self == KB and f.kind == "method"]
+    return P.views(lambda f: f.impl_self == KB and f.kind == "method")
 
 
 def run(P, R, tier, cfg):
